@@ -15,7 +15,8 @@ Fixpoint ast_eqb (a b : ast) : bool :=
 
 Definition err_eqb (a b : err) : bool :=
   match a, b with
-  | EParse, EParse | EAttribute, EAttribute | EKey, EKey | EFuel, EFuel | EAssert, EAssert => true
+  | EParse, EParse | EAttribute, EAttribute | EKey, EKey | EFuel, EFuel | EAssert, EAssert
+  | EIndex, EIndex | EValue, EValue => true
   | _, _ => false
   end.
 
@@ -44,6 +45,14 @@ Definition check_loop (c : list (N * cell) * res (list (N * ast))) : bool :=
   | _, _ => false
   end.
 
+(* cellcard.split: (card text, (geometry, options) or the exception) *)
+Definition check_split (c : string * res (string * string)) : bool :=
+  match split_card (fst c), snd c with
+  | Ok (g, o), Ok (g', o') => String.eqb g g' && String.eqb o o'
+  | Err x, Err y => err_eqb x y
+  | _, _ => false
+  end.
+
 (* ---- exhaustive tie by bucketed fingerprints ----
    The harness enumerates every string over [alpha] up to a length, runs the
    implementation and computes, per bucket (a prefix), the number of accepted
@@ -65,6 +74,7 @@ Definition h_res (r : res ast) : N :=
   match r with
   | Ok a => (1000 + h_ast a) mod fpP
   | Err EParse => 1 | Err EAttribute => 2 | Err EKey => 3 | Err EFuel => 4 | Err EAssert => 5
+  | Err EIndex => 6 | Err EValue => 7
   end.
 
 Fixpoint h_str (s : string) (acc : N) : N :=
